@@ -166,6 +166,10 @@ func digestTerm(d []uint64) string {
 
 var failCount = map[string]int{}
 
+// aliased: receive() cases in which the implementation wrote into its own input buffer (judged by
+// the oracle only, see more.go)
+var aliased int
+
 func fail(what, key string, desc map[string]interface{}) {
 	failCount[key]++
 	if failCount[key] <= 3 {
@@ -252,6 +256,9 @@ func run(dec string, in []byte, class string) resp {
 		out.Add(fmt.Sprintf("C %s %s %s %d", c, vh.Bytes(in), o, cls), dec+"/"+class, nontrivial, desc)
 	} else if dec == "json" && r.Term != "" {
 		out.Add(r.Term, dec+"/"+class, nontrivial, desc)
+	} else if (dec == "recv" || dec == "recvseq") && r.Term == "ALIAS" {
+		aliased++
+		out.Count(dec+"/"+class+"-aliased", k, nontrivial)
 	} else if (dec == "recv" || dec == "recvseq") && r.Class != "hang" {
 		o := "Panic"
 		switch r.Class {
@@ -435,6 +442,7 @@ func main() {
 		generate()
 	}
 	out.Extra("worker_spawns", wk.spawn)
+	out.Extra("receive_cases_with_in_place_append_into_the_input_buffer", aliased)
 	out.Extra("harness_seconds", time.Since(t0).Seconds())
 	keys := []string{}
 	for k, n := range failCount {
